@@ -435,6 +435,15 @@ pub fn check_c11(
                 });
             }
             let fully_sent = obs.sent_seq.get(k).copied().flatten().is_some();
+            if !fully_sent && entered && !*streaming {
+                v.push(Violation {
+                    rule: "c11.incomplete_body_delivered".into(),
+                    detail: format!(
+                        "endpoint {ep}: the client never finished the body of nonce {} (declared {} bytes) but the buffered handler was entered",
+                        rq.nonce, len
+                    ),
+                });
+            }
             if !fully_sent || departs {
                 continue;
             }
